@@ -92,6 +92,18 @@ Fixpoint mon_own_ack (ops : list (N * (packet * option N))) (ws : list wev) : bo
   | _ :: rest => mon_own_ack ops rest
   end.
 
+(* never silently dropped: after every call each incomplete operation is tracked in at least one place
+   (an intake queue, the current operation, a pending table) - an operation that exists but is tracked
+   nowhere can never be sent, acknowledged or failed *)
+Definition mon_tracked (ws : list wev) : bool :=
+  forallb (fun w => match w with
+                    | WCall _ _ r sn =>
+                        if is_panicb r then true else
+                        forallb (fun id => mem id (sn_uq sn) || mem id (sn_rq sn) || mem id (sn_hq sn) || mem id (sn_pwco sn)
+                                           || mem id (map snd (sn_ppub sn)) || mem id (map snd (sn_pnon sn))
+                                           || (match sn_cur sn with Some c => c =? id | None => false end)) (sn_ops sn)
+                    | _ => true end) ws.
+
 (* after reset nothing stays tracked *)
 Definition mon_reset_clears (ws : list wev) : bool :=
   forallb (fun w => match w with
@@ -539,6 +551,7 @@ Definition all_monitors (cfg : config) (ws : list wev) : list (N * bool) :=
     (101, mon_unique_completion [] [] ws);
     (102, mon_own_ack [] ws);
     (103, mon_reset_clears ws);
+    (104, mon_tracked ws);
     (401, mon_c04 (mkC04 [] false) ws);
     (501, mon_c05_acks false [] ws);
     (601, mon_c06 [] ws);
